@@ -593,6 +593,74 @@ impl<'a> Gen<'a> {
         }
         out
     }
+    /// Two nested loops; the outer body (or a block between the loops) registers defers before the
+    /// inner loop; the inner loop is the target of a jump of its own and holds a jump to the OUTER
+    /// loop (`continue `outer` / `break `outer`), in either order, with nothing or something
+    /// deferred in the inner body (seeded change C03_3: the unwinding of a labelled `continue`
+    /// stopped at the first loop frame).
+    fn nested_loops(&mut self) -> Vec<Stmt> {
+        let lo = self.label();
+        let li = self.label();
+        let mut inner = vec![];
+        if self.rng.chance(1, 4) {
+            inner.push(Stmt::Defer(self.defer_body(3, 0)));
+        }
+        if self.rng.chance(1, 2) {
+            inner.push(Stmt::Print(self.ev()));
+        }
+        let own = Stmt::If(vec![if self.rng.chance(1, 2) { Stmt::Brk(li) } else { Stmt::Cont(li) }]);
+        let out_jump = match self.rng.below(5) {
+            0 | 1 | 2 => Stmt::Cont(lo),
+            3 => Stmt::Brk(lo),
+            _ => Stmt::Brk(0),
+        };
+        let to_outer = if self.rng.chance(1, 3) { Stmt::If(vec![Stmt::If(vec![out_jump])]) } else { Stmt::If(vec![out_jump]) };
+        if self.rng.chance(1, 2) {
+            inner.push(own);
+            inner.push(to_outer);
+        } else {
+            inner.push(to_outer);
+            inner.push(own);
+        }
+        if self.rng.chance(1, 2) {
+            inner.push(Stmt::Print(self.ev()));
+        }
+        if self.rng.chance(1, 5) {
+            inner.push(Stmt::Defer(vec![Stmt::Print(self.ev())]));
+        }
+        let mut mid = vec![];
+        if self.rng.chance(1, 2) {
+            mid.push(Stmt::Defer(vec![Stmt::Print(self.ev())]));
+        }
+        mid.push(Stmt::Loop(li, inner));
+        if self.rng.chance(1, 2) {
+            mid.push(Stmt::Print(self.ev()));
+        }
+        let mut outer = vec![];
+        if self.rng.chance(1, 3) {
+            outer.push(Stmt::Print(self.ev()));
+        }
+        outer.push(Stmt::Defer(if self.rng.chance(3, 4) { vec![Stmt::Print(self.ev())] } else { self.defer_body(2, 0) }));
+        if self.rng.chance(1, 3) {
+            outer.push(Stmt::Defer(vec![Stmt::Print(self.ev())]));
+        }
+        match self.rng.below(3) {
+            0 => outer.push(Stmt::Block(None, mid)),
+            1 => {
+                let l = self.label();
+                outer.push(Stmt::Block(Some(l), mid));
+            }
+            _ => outer.extend(mid),
+        }
+        outer.push(Stmt::Print(self.ev()));
+        let mut out = vec![];
+        if self.rng.chance(1, 2) {
+            out.push(Stmt::Defer(vec![Stmt::Print(self.ev())]));
+        }
+        out.push(Stmt::Loop(lo, outer));
+        out.push(Stmt::Print(self.ev()));
+        out
+    }
     fn ev(&mut self) -> u32 {
         self.next_event += 1;
         self.next_event
@@ -604,10 +672,13 @@ impl<'a> Gen<'a> {
 }
 
 pub fn gen_program(rng: &mut Rng) -> Vec<Stmt> {
-    let scenario = rng.chance(2, 5);
+    let which = rng.below(10);
     let mut g = Gen { rng, next_event: 0, next_label: 0 };
-    if scenario {
+    if which < 4 {
         return g.scenario();
+    }
+    if which < 6 {
+        return g.nested_loops();
     }
     let mut ctx = vec![];
     g.stmts(0, &mut ctx, false, 0)
@@ -660,6 +731,10 @@ fn corpus() -> Vec<Vec<Stmt>> {
         // (the `deferLoop` example of Props/C03.lean)
         vec![d(1), Defer(vec![Loop(5, vec![d(2), If(vec![Cont(5)]), Print(3)]), Print(4)]),
              If(vec![Brk(0)]), Print(6)],
+        // seeded/C03_3 demo: `continue `outer` from an inner loop that has a jump of its own; the
+        // outer body deferred something before the inner loop (both orders of the two jumps)
+        vec![d(1), Loop(2, vec![d(3), Loop(4, vec![If(vec![Cont(2)]), If(vec![Brk(4)]), Print(5)]), Print(6)]), Print(7)],
+        vec![Loop(2, vec![d(3), d(8), Block(None, vec![d(9), Loop(4, vec![If(vec![Cont(4)]), If(vec![Cont(2)]), Print(5)])]), Print(6)]), Print(7)],
     ]
 }
 
@@ -667,7 +742,7 @@ pub fn run(tier: &str, seed: u64, widen: bool) -> Report {
     let mut rep = Report::new(
         "C03",
         "real capy CLI + built executable (event trace on stdout) vs Lean model CapyV.Defer.runCompiled (and runSpec) on generated DeferLang programs",
-        "corpus of past failures first (incl. the seeded/C03_1 demo), then seeded random programs: <= 4 nested blocks/loops below the function body, <= 3 defers per block, a defer holds a body (atomic print, or a block with inner labelled loops/blocks, if, conditional break/continue to inner labels, nested defers, <= 3 defer levels), break/continue/return/.try in every position (conditional and as last statement), 2 of 5 programs are built around a frame with an earlier defer + a deferred block with its own jump that is left by a jump; each program run under 6 decision sequences of up to 48 decisions; non-trivial = the program has a defer and a jump (break/continue/return/.try); distinct by (program, decisions)",
+        "corpus of past failures first (incl. the seeded/C03_1 demo), then seeded random programs: <= 4 nested blocks/loops below the function body, <= 3 defers per block, a defer holds a body (atomic print, or a block with inner labelled loops/blocks, if, conditional break/continue to inner labels, nested defers, <= 3 defer levels), break/continue/return/.try in every position (conditional and as last statement), 2 of 5 programs are built around a frame with an earlier defer + a deferred block with its own jump that is left by a jump, 1 of 5 around two nested loops where the inner one has its own jump and a jump to the outer one past defers of the outer body; each program run under 6 decision sequences of up to 48 decisions; non-trivial = the program has a defer and a jump (break/continue/return/.try); distinct by (program, decisions)",
     );
     if !e2e::available() {
         rep.notes.push("capy CLI binary missing".into());
